@@ -783,7 +783,8 @@ class Container:
             volume_to_transfer = Unit.convert_to_storage(quantity_to_transfer, 'L')
             volume_to_transfer = round(volume_to_transfer, config.internal_precision)
 
-            if volume_to_transfer > source_container.volume:
+            if (volume_to_transfer > source_container.volume and source_container.volume > 0
+                    and round(volume_to_transfer / source_container.volume, config.internal_precision) > 1):
                 raise ValueError(f"Not enough mixture left in source container ({source_container.name}). " +
                                  f"Only {Unit.convert_from_storage(source_container.volume, 'mL')} mL available, " +
                                  f"{Unit.convert_from_storage(volume_to_transfer, 'mL')} mL needed.")
